@@ -435,6 +435,12 @@ class MainTransformer(object):
         if type_node is not None:
             result.ctype = type_node.ctype
             result.complete_ctype = type_node.complete_ctype
+        if (not result.resolved and result.ctype is None and
+                result.gtype_name is None):
+            # The original node has no C type (a signal read from the GType
+            # dump): the string that was written is all that is left to
+            # report the unresolved type with
+            result.ctype = type_str
         return result
 
     def _get_position(self, func, param):
